@@ -17,7 +17,7 @@ SPECDIR = os.path.join(vf.SPEC, "field")
 
 META = dict(
     technique="TLC-checked Lucas/Pratt, root-of-unity, irreducibility and Frobenius certificates over square-and-multiply chains recorded from the real field code (FieldConst.tla); TLC-generated decoder cases with expected verdicts replayed on the real decoders (FieldEnc.tla)",
-    text="For f64, f62 and f128 TLC derives from calls recorded on the real code that MODULUS is prime and GENERATOR generates the group (g^(p-1)=1, g^((p-1)/q)!=1 for every prime q of a TLC-verified factorisation of p-1, sub-primes certified recursively), TWO_ADICITY = v2(p-1), get_root_of_unity(n) has exact order 2^n for every n (111 orders, exhaustive), the five extension polynomials are irreducible (x^p - x invertible modulo the polynomial, Euler criterion for the quadratics) and conjugate() is the p-th power; and every decoder (TryFrom<u64/u128/[u8;8]/&[u8]>, read_from, read_from_bytes, from_random_bytes, from_bytes_with_padding, read_many, extension decoders) is replayed on TLC-enumerated boundary inputs with the specification's verdict (value < p accepted and re-encoded to the same bytes, value >= p and wrong lengths rejected).",
+    text="For f64, f62 and f128 TLC derives from calls recorded on the real code that MODULUS is prime and GENERATOR generates the group (g^(p-1)=1, g^((p-1)/q)!=1 for every prime q of a TLC-verified factorisation of p-1, sub-primes certified recursively), TWO_ADICITY = v2(p-1), get_root_of_unity(n) has exact order 2^n for every n (111 orders, exhaustive), the five extension polynomials are irreducible (x^p - x invertible modulo the polynomial, Euler criterion for the quadratics) and conjugate() is the p-th power; and every decoder (TryFrom<u64/u128/[u8;8]/&[u8]>, read_from, read_from_bytes, from_random_bytes, from_bytes_with_padding, read_many, extension decoders) is replayed on TLC-enumerated boundary inputs with the specification's verdict (value < p accepted and re-encoded to the same bytes, value >= p and wrong lengths rejected); elements produced by new(v) and by arithmetic with a known value (x + (-x), x - x, x*y - y*x, a + b around p) are observed through every encoder (as_int, to_bytes, write_into, u64/u128 conversions) and must report the canonical value whatever their internal representation.",
     note="Factorisations of p-1 were computed once with sympy and are re-verified by TLC (product and recursive primality) in every run; decoder inputs are boundary-enumerated, not exhaustive; from_bytes_with_padding is exercised only on its documented domain; bytes_as_elements (unsafe, internal representation, documented as unchecked) is not treated as a decoder.",
     design="7/C11")
 
